@@ -93,6 +93,19 @@ func (env *Env) eval(x Expr) TV {
 			_ = gv
 			return TV{T: e.heapGet(env.state, "gh|"+n.Name)}
 		}
+		if n.Name == "seen" {
+			// the delivered-keys set of the function's (single) map range loop
+			var found []string
+			for k := range e.heap0 {
+				if strings.HasPrefix(k, "gh|$seen|") {
+					found = append(found, k)
+				}
+			}
+			if len(found) == 1 {
+				return TV{T: e.heapGet(env.state, found[0])}
+			}
+			evalFail("seen: function has %d map range loops", len(found))
+		}
 		if n.Name == "MaxInt" {
 			return TV{T: BigLit(maxInt64Str)}
 		}
